@@ -51,6 +51,10 @@ def pack(layout, value) -> int:
     return int(value) & ((1 << sh.width) - 1)
 
 
+class ExclusivityMismatch(Exception):
+    """a provided method's exclusive/nonexclusive kind differs from what the component documents"""
+
+
 class Port:
     """kind 't': AdapterTrans calling a provided method;  'a': Adapter implementing a required one."""
 
@@ -124,6 +128,10 @@ class MethodHarness:
     def ignore_state(self):
         """Signals (registers) left out of the BFS key; Driver checks structurally that they are write-only sinks."""
         return ()
+
+    def nonexclusive_ports(self):
+        """names of the 't' ports whose method the component defines as nonexclusive (library convention: peek, clear, order)"""
+        return {p for p in ("peek", "peek2", "clear", "order")}
 
     def count(self, key, n=1):
         self.counters[key] = self.counters.get(key, 0) + n
@@ -199,6 +207,19 @@ class MethodHarness:
             self.obs_names = [n for n, _ in observed]
             self.top = top
             drv = Driver(top, inputs, observed, ignore_state=self.ignore_state())
+            # structural guard: a provided method is nonexclusive exactly if the component documents it so (peek / clear /
+            # order by default); with one caller per method the BFS alone cannot see an exclusive method turning nonexclusive
+            want = self.nonexclusive_ports()
+            for p in ports:
+                if p.kind == "t":
+                    try:
+                        nx = bool(p.adapter.iface._body.nonexclusive)
+                    except Exception:
+                        continue
+                    if nx != (p.name in want):
+                        raise ExclusivityMismatch(f"method behind port '{p.name}' is "
+                                                  f"{'nonexclusive' if nx else 'exclusive'}, documented "
+                                                  f"{'nonexclusive' if p.name in want else 'exclusive'}")
         finally:
             ctx.__exit__(None, None, None)
         self.drv = drv
